@@ -11,7 +11,7 @@ exec 9>/tmp/mut_repo$S.lock; flock 9   # one user per slot at a time
 git -C $WT checkout -q --detach "$(git -C /repo rev-parse HEAD)"; git -C $WT checkout -q -- . ; git -C $WT clean -qfd -- .
 git -C $WT apply "$PATCH" || { echo "patch does not apply"; exit 2; }
 for p in "$@"; do
-  VERIF_REPO=$WT VERIF_WORK=/tmp/mut_work$S VERIF_EVIDENCE=/tmp/mut_evidence$S /verif/vcheck "$p" > /tmp/try_seedwt${S}_$p.log 2>&1; rc=$?
+  VERIF_REPO=$WT VERIF_WORK=/tmp/mut_work$S VERIF_EVIDENCE=/tmp/mut_evidence$S "$(dirname "$0")/../vcheck" "$p" > /tmp/try_seedwt${S}_$p.log 2>&1; rc=$?
   echo "== $p exit=$rc"; grep -E "^\s+\[|^VIOLATION" /tmp/try_seedwt${S}_$p.log | head -${SEED_LINES:-6} | cut -c1-${SEED_COLS:-420}
 done
 git -C $WT checkout -q -- . ; git -C $WT clean -qfd -- .
